@@ -12,7 +12,7 @@ import (
 	"sort"
 	"strconv"
 	"strings"
-	"sync"
+	"sync/atomic"
 	"time"
 
 	"github.com/hyperledger/firefly-common/pkg/wsclient"
@@ -56,40 +56,42 @@ type WSCase struct {
 
 // ---- the harness-owned transport
 
+// fakeWS synchronizes with the client only where the real transport does. In particular
+// Send performs nothing but atomic loads before it blocks or hands the frame over, so a
+// sender blocked in Send has no happens-before edge towards the harness (the real
+// transport's Send has none towards the goroutine that runs the after-connect callback).
 type fakeWS struct {
 	recv   chan []byte
 	out    chan []byte
 	closed chan struct{}
-	mu     sync.Mutex
-	failIn int
-	gate   chan struct{} // closed channel = connection up; open channel = Send blocks
+	failIn atomic.Int64
+	gate   atomic.Pointer[chan struct{}] // closed channel = connection up; open channel = Send blocks
 }
 
-var openGate = func() chan struct{} { c := make(chan struct{}); close(c); return c }()
+var openGate = func() *chan struct{} { c := make(chan struct{}); close(c); return &c }()
 
 func newFakeWS() *fakeWS {
-	return &fakeWS{recv: make(chan []byte), out: make(chan []byte, 4096), closed: make(chan struct{}), gate: openGate}
+	f := &fakeWS{recv: make(chan []byte), out: make(chan []byte, 4096), closed: make(chan struct{})}
+	f.gate.Store(openGate)
+	return f
 }
 
-// down makes later Sends block; it returns the gate they block on.
+// down makes later Sends block.
 func (f *fakeWS) down() {
-	f.mu.Lock()
-	if f.gate == openGate {
-		f.gate = make(chan struct{})
+	if f.gate.Load() == openGate {
+		c := make(chan struct{})
+		f.gate.Store(&c)
 	}
-	f.mu.Unlock()
 }
 
 // up lets new Sends pass and returns the gate the earlier ones are blocked on (nil if none).
 func (f *fakeWS) up() chan struct{} {
-	f.mu.Lock()
-	defer f.mu.Unlock()
-	if f.gate == openGate {
+	g := f.gate.Load()
+	if g == openGate {
 		return nil
 	}
-	g := f.gate
-	f.gate = openGate
-	return g
+	f.gate.Store(openGate)
+	return *g
 }
 
 func (f *fakeWS) Connect() error                         { return nil }
@@ -99,18 +101,12 @@ func (f *fakeWS) URL() string                            { return "ws://verif.in
 func (f *fakeWS) SetURL(string)                          {}
 func (f *fakeWS) SetHeader(string, string)               {}
 func (f *fakeWS) Close()                                 {}
-func (f *fakeWS) failNext(k int)                         { f.mu.Lock(); f.failIn = k; f.mu.Unlock() }
+func (f *fakeWS) failNext(k int)                         { f.failIn.Store(int64(k)) }
 func (f *fakeWS) Send(ctx context.Context, m []byte) error {
-	f.mu.Lock()
-	if f.failIn > 0 {
-		f.failIn--
-		if f.failIn == 0 {
-			f.mu.Unlock()
-			return errors.New("verif transport: connection lost")
-		}
+	if f.failIn.Load() > 0 && f.failIn.Add(-1) == 0 {
+		return errors.New("verif transport: connection lost")
 	}
-	g := f.gate
-	f.mu.Unlock()
+	g := *f.gate.Load()
 	select {
 	case <-g:
 	case <-ctx.Done():
@@ -141,7 +137,11 @@ func blockedSenders() int {
 		}
 		c := 1
 		if i := strings.Index(blk, " @"); i > 0 {
-			if v, err := strconv.Atoi(strings.TrimSpace(blk[:i])); err == nil {
+			head := blk[:i] // "<count>", possibly preceded by the profile's title line
+			if j := strings.LastIndexByte(head, '\n'); j >= 0 {
+				head = head[j+1:]
+			}
+			if v, err := strconv.Atoi(strings.TrimSpace(head)); err == nil {
 				c = v
 			}
 		}
@@ -201,6 +201,7 @@ type wsSub struct {
 	serverID  string
 	unsubID   string
 	unsubDone chan *rpcbackend.RPCError
+	limboID   string // server id whose eth_unsubscribe is waiting for a connection
 }
 
 type frame struct {
@@ -920,14 +921,16 @@ func (r *wsRun) opUnsub(a int) {
 	}()
 	wasActive := s.state == stActive
 	if r.held != nil && r.held.s == s {
-		// Unsubscribe cancels the subscription's context first: the loop gives up on the held notification
-		r.held = nil
-		r.class("ws:unsubscribe-while-notification-held")
+		// what happens when an Unsubscribe overtakes a notification that the receive loop is still
+		// handing to the subscriber is deliberately not asserted: let the subscriber take it first
+		if !r.consumeHeld() {
+			return
+		}
 	}
 	if r.isDown && wasActive {
 		if r.waitBlocked(r.limboCount()+1, "Unsubscribe of "+s.token) {
 			delete(r.owner, s.serverID)
-			s.state = stLimboUnsub
+			s.state, s.limboID = stLimboUnsub, s.serverID
 			r.class("ws:unsubscribe-started-while-down")
 		}
 		return
@@ -1312,7 +1315,7 @@ func (r *wsRun) opReconnect(failAt, variant int) {
 			continue
 		}
 		s.state = stGone
-		f, ok := orig["eth_unsubscribe|"+s.serverID]
+		f, ok := orig["eth_unsubscribe|"+s.limboID]
 		if !ok {
 			r.fail("request-shape", "Unsubscribe of %s had been waiting for a connection but its request was never sent", s.token)
 			continue
@@ -1545,7 +1548,7 @@ var wsOps = []string{
 	"unsubreply", "unsubreply",
 	"stale", "stale",
 	"reject", "cancelcall", "cancelsub",
-	"hold", "hold", "consume", "down", "down",
+	"hold", "hold", "hold", "consume", "down",
 }
 
 var wsStepGen = rapid.Custom(func(rt *rapid.T) WSStep {
